@@ -143,10 +143,13 @@ def specJudge (XS : XmlSpec.SpecExt) (t : Ty) (doc : Bytes) (status payload : St
   let interruptClass := if docHasCdata toks then "xml-cdata-dropped" else "xml-comment-splits-text"
   let docV := value doc
   if status = "err" then
-    -- rejection is never a violation of the stated property, except the SDK form of ACL documents
     match docV with
     | .ok _ =>
       if hasSub ([32] ++ xsiType ++ [61]) doc then some ("xml-xsi-type", "document in the Smithy form (xsi:type attribute) rejected: " ++ payload)
+      -- a well-formed document that fits the type (any member order) must be accepted; only the lexical space of
+      -- the non-string scalars (white space around numbers / booleans …) is left to the implementation
+      else if payload ≠ "InvalidContent" then
+        some ("xml-valid-refused-" ++ payload, "a well-formed document that fits the type is refused: " ++ payload)
       else none
     | .error _ => none
   else if status = "serpanic" then
